@@ -214,7 +214,7 @@ func (w *World) Do(c Call) error {
 			return err
 		}
 		return f.Close()
-	case "Archive":
+	case "Archive", "UpdateBatch":
 		return w.archiveBatch(c)
 	case "Open":
 		f, err := fs.OpenFile(p, openFlags(c.K), filePerm)
@@ -308,13 +308,18 @@ func (w *World) archiveBatch(c Call) error {
 		members = append(members, member{src: src, dst: w.Path(append(append([]string{}, c.P...), name)), info: info})
 	}
 	i := 0
-	_, err = w.Inst.WriteOps.Archive(func() (config.FileConfig, error) {
+	src := func() (config.FileConfig, error) {
 		if i >= len(members) {
 			return config.FileConfig{}, io.EOF
 		}
 		m := members[i]
 		i++
 		return config.FileConfig{GetFile: func() (io.ReadSeekCloser, error) { return os.Open(m.src) }, Info: m.info, Path: m.dst, Link: ""}, nil
-	}, w.Inst.Cfg.Level, false, false)
+	}
+	if c.Op == "UpdateBatch" {
+		_, err = w.Inst.WriteOps.Update(src, w.Inst.Cfg.Level, true, false)
+	} else {
+		_, err = w.Inst.WriteOps.Archive(src, w.Inst.Cfg.Level, false, false)
+	}
 	return err
 }
